@@ -4,4 +4,4 @@ CONSTANTS
   Bug = "none"
   Group = "optmonad"
   MaxLen = 0
-INVARIANTS TypeOK LawOptLeftIdentity LawOptRightIdentity LawOptAssoc LawOptJoin
+INVARIANTS TypeOK LawOptLeftIdentity LawOptRightIdentity LawOptAssoc LawOptJoin LawOptChain
